@@ -134,8 +134,8 @@ pub fn diag_class(m: &str) -> String {
 
 pub fn formats_json() -> (Vec<String>, Vec<String>) {
     (
-        crate::den::STRING_FORMATS.iter().map(|s| s.to_string()).collect(),
-        crate::den::NUMBER_FORMATS.iter().map(|s| s.to_string()).collect(),
+        crate::den::STRING_FORMATS.iter().map(|s| s.to_string()).chain([crate::den::SHARED_FORMAT.to_string()]).collect(),
+        crate::den::NUMBER_FORMATS.iter().map(|s| s.to_string()).chain([crate::den::SHARED_FORMAT.to_string()]).collect(),
     )
 }
 
